@@ -66,7 +66,7 @@ impl Params {
     }
     /// parameter tuples beyond the presets
     pub fn random(rng: &mut Rng) -> Params {
-        let e = [-INF, -1e3, -1.5, -1.0, 0.0, 0.5, 1.0, 1.5, 2.0, 1e3, INF];
+        let e = [-INF, -1e3, -60.0, -12.0, -1.5, -1.0, 0.0, 0.5, 1.0, 1.5, 2.0, 10.0, 1e3, INF];
         let w = [-INF, -2.0, -0.5, 0.0, 0.5, 1.0, 3.0, INF];
         Params {
             pos: *rng.pick(&e),
@@ -568,7 +568,11 @@ pub fn case_solve(ctx: &mut Ctx, case: &Value) {
                 }
                 if let Some(e) = bad {
                     let margin = model_margin(ctx, &t, &cfg);
-                    if margin < ILL {
+                    // a case may declare that nothing in it is decided by rounding (a two-level game
+                    // on one thread: no sum has more than two terms, a tiny regret is tiny because it
+                    // was discounted, not because something cancelled)
+                    let exact = case["exact"].as_bool().unwrap_or(false);
+                    if margin < ILL && !exact {
                         ctx.skipped_illcond += 1;
                         ctx.stat("ill_conditioned_skipped");
                     } else {
@@ -1150,8 +1154,25 @@ pub fn c08(ctx: &mut Ctx) -> String {
                 Params { pos: 1.5, neg: 0.5, strat: 2.0, nopos: 1.0 },
                 Params { pos: 0.0, neg: 2.0, strat: 0.0, nopos: -0.5 },
                 Params { pos: -1e3, neg: 1.0, strat: 1.0, nopos: 0.5 },
+                // discount factors t^a/(t^a+1) far below machine epsilon but not zero: a regret
+                // discounted to 1e-20 of itself is still positive, and still decides the strategy
+                // wherever no new regret arrives
+                Params { pos: -60.0, neg: INF, strat: 0.0, nopos: 0.0 },
+                Params { pos: -12.0, neg: INF, strat: 0.0, nopos: 0.0 },
+                Params { pos: -10.0, neg: 0.5, strat: 1.0, nopos: INF },
             ]);
             pn = "order-sensitive".to_string();
+        }
+        // with those tuples, every other time on a game in which one player's move switches the
+        // other's infoset off (reach exactly zero: no new regret arrives there)
+        let (t, fam) = if i % 8 == 7 {
+            let (x, y, z) = (1.0 + ctx.rng.below(3) as f64, -3.0 + ctx.rng.below(2) as f64, 0.25 * ctx.rng.below(3) as f64);
+            (T::Player(true, 0, vec![(0, T::Term(z)), (1, T::Player(false, 0, vec![(0, T::Term(x)), (1, T::Term(y))]))]), "switch-off")
+        } else {
+            (t, fam)
+        };
+        if i % 8 == 7 {
+            ctx.stat("family_switch-off");
         }
         ctx.stat(&format!("params_{}", pn));
         let seed = ctx.rng.next() >> 12;
@@ -1163,7 +1184,11 @@ pub fn c08(ctx: &mut Ctx) -> String {
             if i < 2 && *tt == 5 {
                 sample_case(ctx, &t, fam, &cfg);
             }
-            case_solve(ctx, &solve_case(&t, &cfg, &["corr", "draws"]));
+            let mut case = solve_case(&t, &cfg, &["corr", "draws"]);
+            if fam == "switch-off" && method == "F" {
+                case["exact"] = json!(true);
+            }
+            case_solve(ctx, &case);
         }
         // the documented iterates do not depend on the thread count either
         if i % 3 == 0 {
@@ -1641,6 +1666,20 @@ pub fn c12(ctx: &mut Ctx) -> String {
             ctx.sample(json!({"family": fam, "nodes": t.size(), "what": what, "c": c, "cfg": cfg.json(), "tree_line": t.to_line()}));
         }
         case_meta(ctx, &case);
+    }
+    // the same at the command line (Gambit files: a constant added to both players' payoffs)
+    for i in 0..(if ctx.thorough { 200u64 } else { 24 }) {
+        if ctx.out_of_time() {
+            break;
+        }
+        let (t, _) = small_game(ctx, i, 80);
+        if t.depth() > 30 || t.range() > 1e6 || t.range() < 1e-6 {
+            continue;
+        }
+        let c = *ctx.rng.pick(&[1.0, 2.0, -3.0, 0.5, 8.0]);
+        let case = json!({"op": "cli-shift", "tree": t.to_json(), "nseed": ctx.rng.next() >> 12, "shift": c,
+            "discount": *ctx.rng.pick(&["vanilla", "lcfr", "cfr-plus", "dcfr", "dcfr-prune"]), "t": *ctx.rng.pick(&[1u64, 3, 10])});
+        crate::cli::case_shift(ctx, &case);
     }
     "metamorphic pairs on the implementation: games x {rescale chance weights by positive constants, insert single-outcome chance and single-action decision nodes, injective renaming of infosets / actions / chance infosets, payoff scale c > 0 (presets), payoff shift, player swap with negated payoffs} x profiles (evaluation) x Full solves with budgets 0..30 (strategies mapped back, bounds scaled / swapped)".to_string()
 }
